@@ -1,5 +1,5 @@
 /-
-Color488Code, square sizes `Lx = Ly = L ≥ 1`: arithmetic description of the face list, of
+Color488Code, all sizes `Lx, Ly ≥ 1` (`x` is taken modulo `8Lx`, `y` modulo `8Ly`): arithmetic description of the face list, of
 `get_stabilizer` (wrapped square / octagon corners, no duplicate keys), and of the DERIVED qubit
 list (closed form `IsQ`).  Wrap-around is handled algebraically: `(a + d) % m = (b + d') % m` iff
 `(b − a) % m = (d − d') % m`, and `k % m` is known for the small constants `k`.  Core Lean only.
@@ -60,28 +60,28 @@ theorem emod_range {L : Nat} (hL : 1 ≤ L) (v : Int) :
 
 /-! ### faces -/
 
-/-- `(x, y)` is the centre of a face (the seam rows `x = 8L`, `y = 8L` included) -/
-def IsF (L : Nat) (x y : Int) : Prop :=
-  x % 4 = 0 ∧ y % 4 = 0 ∧ 0 ≤ x ∧ x ≤ 8 * (L : Int) ∧ 0 ≤ y ∧ y ≤ 8 * (L : Int)
+/-- `(x, y)` is the centre of a face (the seam rows `x = 8Lx`, `y = 8Ly` included) -/
+def IsF (Lx Ly : Nat) (x y : Int) : Prop :=
+  x % 4 = 0 ∧ y % 4 = 0 ∧ 0 ≤ x ∧ x ≤ 8 * (Lx : Int) ∧ 0 ≤ y ∧ y ≤ 8 * (Ly : Int)
 
 /-- `(a, b)` is a qubit coordinate (closed form of the derived list): a corner of a square -/
-def IsQ (L : Nat) (a b : Int) : Prop :=
-  0 ≤ a ∧ a < 8 * (L : Int) ∧ 0 ≤ b ∧ b < 8 * (L : Int) ∧
+def IsQ (Lx Ly : Nat) (a b : Int) : Prop :=
+  0 ≤ a ∧ a < 8 * (Lx : Int) ∧ 0 ≤ b ∧ b < 8 * (Ly : Int) ∧
     (((a % 8 = 1 ∨ a % 8 = 7) ∧ (b % 8 = 1 ∨ b % 8 = 7)) ∨
      ((a % 8 = 3 ∨ a % 8 = 5) ∧ (b % 8 = 3 ∨ b % 8 = 5)))
 
-instance (L : Nat) (x y : Int) : Decidable (IsF L x y) := by unfold IsF; infer_instance
-instance (L : Nat) (x y : Int) : Decidable (IsQ L x y) := by unfold IsQ; infer_instance
+instance (Lx Ly : Nat) (x y : Int) : Decidable (IsF Lx Ly x y) := by unfold IsF; infer_instance
+instance (Lx Ly : Nat) (x y : Int) : Decidable (IsQ Lx Ly x y) := by unfold IsQ; infer_instance
 
-theorem mem_faces {L : Nat} {q : Coord} :
-    q ∈ faces L L ↔ ∃ x y, q = [x, y] ∧ IsF L x y := by
+theorem mem_faces {Lx Ly : Nat} {q : Coord} :
+    q ∈ faces Lx Ly ↔ ∃ x y, q = [x, y] ∧ IsF Lx Ly x y := by
   unfold faces IsF
   simp only [mem_grid, mem_pyRangeStep4]
   constructor
   · rintro ⟨x, y, hx, hy, rfl⟩; refine ⟨x, y, rfl, ?_⟩; omega
   · rintro ⟨x, y, rfl, h⟩; exact ⟨x, y, by omega, by omega, rfl⟩
 
-theorem mem_faces' {L : Nat} {x y : Int} : [x, y] ∈ faces L L ↔ IsF L x y := by
+theorem mem_faces' {Lx Ly : Nat} {x y : Int} : [x, y] ∈ faces Lx Ly ↔ IsF Lx Ly x y := by
   rw [mem_faces]
   constructor
   · rintro ⟨x', y', h, hq⟩
@@ -89,11 +89,11 @@ theorem mem_faces' {L : Nat} {x y : Int} : [x, y] ∈ faces L L ↔ IsF L x y :=
     rw [h.1, h.2]; exact hq
   · intro h; exact ⟨x, y, rfl, h⟩
 
-theorem nodup_faces (L : Nat) : (faces L L).Nodup :=
+theorem nodup_faces (Lx Ly : Nat) : (faces Lx Ly).Nodup :=
   nodup_grid (nodup_pyRangeStep _ _ _ (by decide)) (nodup_pyRangeStep _ _ _ (by decide))
 
-theorem mem_stabs {L : Nat} {s : Coord} :
-    s ∈ stabs L L ↔ ∃ x y p, s = [x, y, p] ∧ IsF L x y ∧ (p = 0 ∨ p = 1) := by
+theorem mem_stabs {Lx Ly : Nat} {s : Coord} :
+    s ∈ stabs Lx Ly ↔ ∃ x y p, s = [x, y, p] ∧ IsF Lx Ly x y ∧ (p = 0 ∨ p = 1) := by
   unfold stabs
   rw [mem_both]
   constructor
@@ -106,8 +106,8 @@ theorem mem_stabs {L : Nat} {s : Coord} :
     · exact ⟨[x, y], mem_faces'.mpr hf, Or.inl rfl⟩
     · exact ⟨[x, y], mem_faces'.mpr hf, Or.inr rfl⟩
 
-theorem mem_stabs' {L : Nat} {x y p : Int} :
-    [x, y, p] ∈ stabs L L ↔ IsF L x y ∧ (p = 0 ∨ p = 1) := by
+theorem mem_stabs' {Lx Ly : Nat} {x y p : Int} :
+    [x, y, p] ∈ stabs Lx Ly ↔ IsF Lx Ly x y ∧ (p = 0 ∨ p = 1) := by
   rw [mem_stabs]
   constructor
   · rintro ⟨x', y', p', h, hq⟩
@@ -115,64 +115,64 @@ theorem mem_stabs' {L : Nat} {x y p : Int} :
     rw [h.1, h.2.1, h.2.2]; exact hq
   · intro h; exact ⟨x, y, p, rfl, h⟩
 
-theorem nodup_stabs (L : Nat) : (stabs L L).Nodup := nodup_both (nodup_faces L)
+theorem nodup_stabs (Lx Ly : Nat) : (stabs Lx Ly).Nodup := nodup_both (nodup_faces Lx Ly)
 
 /-! ### `get_stabilizer` -/
 
 /-- the wrapped corners of the square at `(x, y)`, in delta order -/
-def sqC (L : Nat) (x y : Int) : List Coord :=
-  [[(x + -1) % (8 * (L : Int)), (y + -1) % (8 * (L : Int))],
-   [(x + 1) % (8 * (L : Int)), (y + 1) % (8 * (L : Int))],
-   [(x + -1) % (8 * (L : Int)), (y + 1) % (8 * (L : Int))],
-   [(x + 1) % (8 * (L : Int)), (y + -1) % (8 * (L : Int))]]
+def sqC (Lx Ly : Nat) (x y : Int) : List Coord :=
+  [[(x + -1) % (8 * (Lx : Int)), (y + -1) % (8 * (Ly : Int))],
+   [(x + 1) % (8 * (Lx : Int)), (y + 1) % (8 * (Ly : Int))],
+   [(x + -1) % (8 * (Lx : Int)), (y + 1) % (8 * (Ly : Int))],
+   [(x + 1) % (8 * (Lx : Int)), (y + -1) % (8 * (Ly : Int))]]
 
 /-- the wrapped corners of the octagon at `(x, y)`, in delta order -/
-def ocC (L : Nat) (x y : Int) : List Coord :=
-  [[(x + 1) % (8 * (L : Int)), (y + -3) % (8 * (L : Int))],
-   [(x + 3) % (8 * (L : Int)), (y + -1) % (8 * (L : Int))],
-   [(x + 3) % (8 * (L : Int)), (y + 1) % (8 * (L : Int))],
-   [(x + 1) % (8 * (L : Int)), (y + 3) % (8 * (L : Int))],
-   [(x + -1) % (8 * (L : Int)), (y + 3) % (8 * (L : Int))],
-   [(x + -3) % (8 * (L : Int)), (y + 1) % (8 * (L : Int))],
-   [(x + -3) % (8 * (L : Int)), (y + -1) % (8 * (L : Int))],
-   [(x + -1) % (8 * (L : Int)), (y + -3) % (8 * (L : Int))]]
+def ocC (Lx Ly : Nat) (x y : Int) : List Coord :=
+  [[(x + 1) % (8 * (Lx : Int)), (y + -3) % (8 * (Ly : Int))],
+   [(x + 3) % (8 * (Lx : Int)), (y + -1) % (8 * (Ly : Int))],
+   [(x + 3) % (8 * (Lx : Int)), (y + 1) % (8 * (Ly : Int))],
+   [(x + 1) % (8 * (Lx : Int)), (y + 3) % (8 * (Ly : Int))],
+   [(x + -1) % (8 * (Lx : Int)), (y + 3) % (8 * (Ly : Int))],
+   [(x + -3) % (8 * (Lx : Int)), (y + 1) % (8 * (Ly : Int))],
+   [(x + -3) % (8 * (Lx : Int)), (y + -1) % (8 * (Ly : Int))],
+   [(x + -1) % (8 * (Lx : Int)), (y + -3) % (8 * (Ly : Int))]]
 
 /-- the support of the two generators of the face `(x, y)` -/
-def supp (L : Nat) (x y : Int) : List Coord :=
-  if (x + y) % 8 = 0 then sqC L x y else ocC L x y
+def supp (Lx Ly : Nat) (x y : Int) : List Coord :=
+  if (x + y) % 8 = 0 then sqC Lx Ly x y else ocC Lx Ly x y
 
-theorem candidates_eq (L : Nat) (x y : Int) : candidates L L x y = supp L x y := by
+theorem candidates_eq (Lx Ly : Nat) (x y : Int) : candidates Lx Ly x y = supp Lx Ly x y := by
   unfold candidates isSquare supp
   by_cases h : (x + y) % 8 = 0
   · simp only [h, decide_true, if_true, deltaSquare, List.map_cons, List.map_nil]; rfl
   · simp only [h, decide_false, if_false, Bool.false_eq_true, deltaOctagon, List.map_cons,
       List.map_nil]; rfl
 
-theorem nodup_sqC {L : Nat} (hL : 1 ≤ L) (x y : Int) : (sqC L x y).Nodup := by
-  have c := consts hL
-  obtain ⟨c0, c2, c4, c6, n2, n4, n6⟩ := c
+theorem nodup_sqC {Lx Ly : Nat} (hx : 1 ≤ Lx) (hy : 1 ≤ Ly) (x y : Int) : (sqC Lx Ly x y).Nodup := by
+  obtain ⟨c0, c2, c4, c6, n2, n4, n6⟩ := consts hx
+  obtain ⟨d0, d2, d4, d6, m2, m4, m6⟩ := consts hy
   unfold sqC
   simp only [List.nodup_cons, List.mem_cons, List.cons.injEq, and_true, List.not_mem_nil,
     or_false, not_false_eq_true, List.nodup_nil, emod_bridge, Int.sub_self,
     Int.reduceSub, Int.reduceNeg]
   omega
 
-theorem nodup_ocC {L : Nat} (hL : 1 ≤ L) (x y : Int) : (ocC L x y).Nodup := by
-  have c := consts hL
-  obtain ⟨c0, c2, c4, c6, n2, n4, n6⟩ := c
+theorem nodup_ocC {Lx Ly : Nat} (hx : 1 ≤ Lx) (hy : 1 ≤ Ly) (x y : Int) : (ocC Lx Ly x y).Nodup := by
+  obtain ⟨c0, c2, c4, c6, n2, n4, n6⟩ := consts hx
+  obtain ⟨d0, d2, d4, d6, m2, m4, m6⟩ := consts hy
   unfold ocC
   simp only [List.nodup_cons, List.mem_cons, List.cons.injEq, and_true, List.not_mem_nil,
     or_false, not_false_eq_true, List.nodup_nil, emod_bridge, Int.sub_self,
     Int.reduceSub, Int.reduceNeg]
   omega
 
-theorem nodup_supp {L : Nat} (hL : 1 ≤ L) (x y : Int) : (supp L x y).Nodup := by
+theorem nodup_supp {Lx Ly : Nat} (hx : 1 ≤ Lx) (hy : 1 ≤ Ly) (x y : Int) : (supp Lx Ly x y).Nodup := by
   unfold supp
   by_cases h : (x + y) % 8 = 0
-  · rw [if_pos h]; exact nodup_sqC hL x y
-  · rw [if_neg h]; exact nodup_ocC hL x y
+  · rw [if_pos h]; exact nodup_sqC hx hy x y
+  · rw [if_neg h]; exact nodup_ocC hx hy x y
 
-theorem supp_shape {L : Nat} {x y : Int} {q : Coord} (h : q ∈ supp L x y) : ∃ a b, q = [a, b] := by
+theorem supp_shape {Lx Ly : Nat} {x y : Int} {q : Coord} (h : q ∈ supp Lx Ly x y) : ∃ a b, q = [a, b] := by
   unfold supp at h
   by_cases h8 : (x + y) % 8 = 0
   · rw [if_pos h8] at h; unfold sqC at h
@@ -188,72 +188,72 @@ def letter (p : Int) : Pauli := if p = 0 then Pauli.X else Pauli.Z
 theorem letter_ne_I (p : Int) : letter p ≠ Pauli.I := by
   unfold letter; by_cases h : p = 0 <;> simp [h]
 
-theorem getStabIn_eq {L : Nat} (hL : 1 ≤ L) {x y p : Int} (h : [x, y, p] ∈ stabs L L) :
-    getStabilizerIn (stabs L L) L L [x, y, p] = some ((supp L x y).map (fun q => (q, letter p))) := by
-  have hs : isIn (stabs L L) [x, y, p] = true := isIn_iff.mpr h
+theorem getStabIn_eq {Lx Ly : Nat} (hx : 1 ≤ Lx) (hy : 1 ≤ Ly) {x y p : Int} (h : [x, y, p] ∈ stabs Lx Ly) :
+    getStabilizerIn (stabs Lx Ly) Lx Ly [x, y, p] = some ((supp Lx Ly x y).map (fun q => (q, letter p))) := by
+  have hs : isIn (stabs Lx Ly) [x, y, p] = true := isIn_iff.mpr h
   unfold getStabilizerIn
   simp only [hs, Bool.not_true, Bool.false_eq_true, if_false]
-  rw [candidates_eq, lineOp_eq _ _ (nodup_supp hL x y)]
+  rw [candidates_eq, lineOp_eq _ _ (nodup_supp hx hy x y)]
   rfl
 
-theorem getStab_eq {L : Nat} (hL : 1 ≤ L) {x y p : Int} (h : [x, y, p] ∈ stabs L L) :
-    (lattice L L).getStab [x, y, p] = (supp L x y).map (fun q => (q, letter p)) := by
-  show (getStabilizer? L L [x, y, p]).getD [] = _
+theorem getStab_eq {Lx Ly : Nat} (hx : 1 ≤ Lx) (hy : 1 ≤ Ly) {x y p : Int} (h : [x, y, p] ∈ stabs Lx Ly) :
+    (lattice Lx Ly).getStab [x, y, p] = (supp Lx Ly x y).map (fun q => (q, letter p)) := by
+  show (getStabilizer? Lx Ly [x, y, p]).getD [] = _
   unfold getStabilizer?
-  rw [getStabIn_eq hL h]; rfl
+  rw [getStabIn_eq hx hy h]; rfl
 
 /-! ### the derived qubit list -/
 
-theorem nodup_qubits (L : Nat) : (qubits L L).Nodup := nodup_derivedQubits _ _
+theorem nodup_qubits (Lx Ly : Nat) : (qubits Lx Ly).Nodup := nodup_derivedQubits _ _
 
-theorem mem_qubits_faces {L : Nat} (hL : 1 ≤ L) {q : Coord} :
-    q ∈ qubits L L ↔ ∃ x y, IsF L x y ∧ q ∈ supp L x y := by
+theorem mem_qubits_faces {Lx Ly : Nat} (hx : 1 ≤ Lx) (hy : 1 ≤ Ly) {q : Coord} :
+    q ∈ qubits Lx Ly ↔ ∃ x y, IsF Lx Ly x y ∧ q ∈ supp Lx Ly x y := by
   unfold qubits
   simp only []
   rw [mem_derivedQubits]
   constructor
   · rintro ⟨s, hs, hq⟩
     obtain ⟨x, y, p, rfl, hf, hp⟩ := mem_stabs.mp hs
-    rw [getStabIn_eq hL hs, Option.getD_some, map_fst_const] at hq
+    rw [getStabIn_eq hx hy hs, Option.getD_some, map_fst_const] at hq
     exact ⟨x, y, hf, hq⟩
   · rintro ⟨x, y, hf, hq⟩
-    have hs : [x, y, 0] ∈ stabs L L := mem_stabs'.mpr ⟨hf, Or.inl rfl⟩
+    have hs : [x, y, 0] ∈ stabs Lx Ly := mem_stabs'.mpr ⟨hf, Or.inl rfl⟩
     refine ⟨[x, y, 0], hs, ?_⟩
-    rw [getStabIn_eq hL hs, Option.getD_some, map_fst_const]
+    rw [getStabIn_eq hx hy hs, Option.getD_some, map_fst_const]
     exact hq
 
-/-- a wrapped corner `((x + dx) % 8L, (y + dy) % 8L)` is a site of the closed form as soon as
+/-- a wrapped corner `((x + dx) % 8Lx, (y + dy) % 8Ly)` is a site of the closed form as soon as
     `(x + dx, y + dy)` has the right residues modulo 8 -/
-theorem isQ_wrapped {L : Nat} (hL : 1 ≤ L) (u v : Int)
+theorem isQ_wrapped {Lx Ly : Nat} (hx : 1 ≤ Lx) (hy : 1 ≤ Ly) (u v : Int)
     (h : ((u % 8 = 1 ∨ u % 8 = 7) ∧ (v % 8 = 1 ∨ v % 8 = 7)) ∨
          ((u % 8 = 3 ∨ u % 8 = 5) ∧ (v % 8 = 3 ∨ v % 8 = 5))) :
-    IsQ L (u % (8 * (L : Int))) (v % (8 * (L : Int))) := by
-  obtain ⟨a1, a2, a3⟩ := emod_range hL u
-  obtain ⟨b1, b2, b3⟩ := emod_range hL v
+    IsQ Lx Ly (u % (8 * (Lx : Int))) (v % (8 * (Ly : Int))) := by
+  obtain ⟨a1, a2, a3⟩ := emod_range hx u
+  obtain ⟨b1, b2, b3⟩ := emod_range hy v
   unfold IsQ
   rw [a3, b3]
   exact ⟨a1, a2, b1, b2, h⟩
 
-theorem isQ_of_corner {L : Nat} (hL : 1 ≤ L) {x y a b : Int} (hf : IsF L x y)
-    (h : [a, b] ∈ supp L x y) : IsQ L a b := by
+theorem isQ_of_corner {Lx Ly : Nat} (hx : 1 ≤ Lx) (hy : 1 ≤ Ly) {x y a b : Int} (hf : IsF Lx Ly x y)
+    (h : [a, b] ∈ supp Lx Ly x y) : IsQ Lx Ly a b := by
   unfold IsF at hf
   unfold supp at h
   by_cases h8 : (x + y) % 8 = 0
   · rw [if_pos h8] at h; unfold sqC at h
     simp only [List.mem_cons, List.cons.injEq, and_true, List.not_mem_nil, or_false] at h
     rcases h with ⟨rfl, rfl⟩ | ⟨rfl, rfl⟩ | ⟨rfl, rfl⟩ | ⟨rfl, rfl⟩ <;>
-      exact isQ_wrapped hL _ _ (by omega)
+      exact isQ_wrapped hx hy _ _ (by omega)
   · rw [if_neg h8] at h; unfold ocC at h
     simp only [List.mem_cons, List.cons.injEq, and_true, List.not_mem_nil, or_false] at h
     rcases h with ⟨rfl, rfl⟩ | ⟨rfl, rfl⟩ | ⟨rfl, rfl⟩ | ⟨rfl, rfl⟩ | ⟨rfl, rfl⟩ | ⟨rfl, rfl⟩ |
-      ⟨rfl, rfl⟩ | ⟨rfl, rfl⟩ <;> exact isQ_wrapped hL _ _ (by omega)
+      ⟨rfl, rfl⟩ | ⟨rfl, rfl⟩ <;> exact isQ_wrapped hx hy _ _ (by omega)
 
 /-- every site of the closed form is a corner of the square centred at the nearest multiples of 4 -/
-theorem corner_of_isQ {L : Nat} (hL : 1 ≤ L) {a b : Int} (h : IsQ L a b) :
-    ∃ x y, IsF L x y ∧ (x + y) % 8 = 0 ∧ [a, b] ∈ sqC L x y := by
+theorem corner_of_isQ {Lx Ly : Nat} (hx : 1 ≤ Lx) (hy : 1 ≤ Ly) {a b : Int} (h : IsQ Lx Ly a b) :
+    ∃ x y, IsF Lx Ly x y ∧ (x + y) % 8 = 0 ∧ [a, b] ∈ sqC Lx Ly x y := by
   unfold IsQ at h
-  have ea : a % (8 * (L : Int)) = a := emod_small (by omega) (by omega)
-  have eb : b % (8 * (L : Int)) = b := emod_small (by omega) (by omega)
+  have ea : a % (8 * (Lx : Int)) = a := emod_small (by omega) (by omega)
+  have eb : b % (8 * (Ly : Int)) = b := emod_small (by omega) (by omega)
   unfold sqC
   simp only [List.mem_cons, List.cons.injEq, and_true, List.not_mem_nil, or_false]
   by_cases ha : a % 4 = 1 <;> by_cases hb : b % 4 = 1
@@ -270,37 +270,37 @@ theorem corner_of_isQ {L : Nat} (hL : 1 ≤ L) {a b : Int} (h : IsQ L a b) :
     · rw [show a + 1 + -1 = a by omega, ea]
     · rw [show b + 1 + -1 = b by omega, eb]
 
-theorem mem_qubits {L : Nat} (hL : 1 ≤ L) {q : Coord} :
-    q ∈ qubits L L ↔ ∃ a b, q = [a, b] ∧ IsQ L a b := by
-  rw [mem_qubits_faces hL]
+theorem mem_qubits {Lx Ly : Nat} (hx : 1 ≤ Lx) (hy : 1 ≤ Ly) {q : Coord} :
+    q ∈ qubits Lx Ly ↔ ∃ a b, q = [a, b] ∧ IsQ Lx Ly a b := by
+  rw [mem_qubits_faces hx hy]
   constructor
   · rintro ⟨x, y, hf, hq⟩
     obtain ⟨a, b, rfl⟩ := supp_shape hq
-    exact ⟨a, b, rfl, isQ_of_corner hL hf hq⟩
+    exact ⟨a, b, rfl, isQ_of_corner hx hy hf hq⟩
   · rintro ⟨a, b, rfl, h⟩
-    obtain ⟨x, y, hf, h8, hm⟩ := corner_of_isQ hL h
+    obtain ⟨x, y, hf, h8, hm⟩ := corner_of_isQ hx hy h
     refine ⟨x, y, hf, ?_⟩
     unfold supp; rw [if_pos h8]; exact hm
 
-theorem mem_qubits' {L : Nat} (hL : 1 ≤ L) {a b : Int} : [a, b] ∈ qubits L L ↔ IsQ L a b := by
-  rw [mem_qubits hL]
+theorem mem_qubits' {Lx Ly : Nat} (hx : 1 ≤ Lx) (hy : 1 ≤ Ly) {a b : Int} : [a, b] ∈ qubits Lx Ly ↔ IsQ Lx Ly a b := by
+  rw [mem_qubits hx hy]
   constructor
   · rintro ⟨x', y', h, hq⟩
     simp only [List.cons.injEq, and_true] at h
     rw [h.1, h.2]; exact hq
   · intro h; exact ⟨a, b, rfl, h⟩
 
-theorem isQubit_iff {L : Nat} (hL : 1 ≤ L) {a b : Int} :
-    isQubit L L [a, b] = true ↔ IsQ L a b := by
-  unfold isQubit; rw [isIn_iff, mem_qubits' hL]
+theorem isQubit_iff {Lx Ly : Nat} (hx : 1 ≤ Lx) (hy : 1 ≤ Ly) {a b : Int} :
+    isQubit Lx Ly [a, b] = true ↔ IsQ Lx Ly a b := by
+  unfold isQubit; rw [isIn_iff, mem_qubits' hx hy]
 
-theorem qubits_stabs_disjoint {L : Nat} (hL : 1 ≤ L) : ∀ q ∈ qubits L L, q ∉ stabs L L := by
+theorem qubits_stabs_disjoint {Lx Ly : Nat} (hx : 1 ≤ Lx) (hy : 1 ≤ Ly) : ∀ q ∈ qubits Lx Ly, q ∉ stabs Lx Ly := by
   intro q hq hs
-  obtain ⟨a, b, rfl, _⟩ := (mem_qubits hL).mp hq
+  obtain ⟨a, b, rfl, _⟩ := (mem_qubits hx hy).mp hq
   obtain ⟨x', y', p, h, _⟩ := mem_stabs.mp hs
   simp at h
 
-theorem supp_nonempty (L : Nat) (x y : Int) : supp L x y ≠ [] := by
+theorem supp_nonempty (Lx Ly : Nat) (x y : Int) : supp Lx Ly x y ≠ [] := by
   unfold supp sqC ocC
   by_cases h : (x + y) % 8 = 0 <;> simp [h]
 
